@@ -142,7 +142,7 @@ func (p *Parser) Parse() (al align.Alignment, err error) {
 		}
 	}
 
-	if al.Length() == 0 {
+	if al.NbSequences() == 0 {
 		err = fmt.Errorf("no sequence in this Stockholm file")
 		return
 	}
